@@ -15,7 +15,7 @@ package martian
 //@ ghost ivar sawClosing() bool
 //@ ghost ivar readOK() bool
 //@ ghost ivar wrotePA() bool
-//@ axiom canon("Proxy-Authenticate") == "Proxy-Authenticate"
+//@ axiom canon("Proxy-Authenticate") == "Proxy-Authenticate" && canon("Connection") == "Connection"
 //@ pred hasPA(h http.Header) = ("Proxy-Authenticate" in h) && len(h["Proxy-Authenticate"]) > 0
 
 // The two trace hooks: one completion report per call (the hook body is user code).
@@ -28,7 +28,7 @@ package martian
 //@ func (*Proxy).traceWroteResponse
 //@ trusted
 //@ modifies *, nWrote(), wroteStatus()
-//@ preserves http.Response.StatusCode http.Response.Close http.Response.Request http.Request.Method http.Request.Close http.Response.Header http.Request.Header http.Request.URL http.Request.Body http.Response.Body proxyConn.* Proxy.* bufio.ReadWriter.*
+//@ preserves http.Response.StatusCode http.Response.Close http.Response.Request http.Request.Method http.Request.Close http.Response.Header http.Request.Header http.Request.URL http.Request.Body http.Response.Body proxyConn.* Proxy.* bufio.ReadWriter.* maps(http.Header)
 //@ ensures nWrote() == old(nWrote()) + 1
 //@ ensures res != nil ==> wroteStatus() == old(res.StatusCode)
 
@@ -100,10 +100,16 @@ package martian
 //@ pure
 //@ ensures result >= 0
 
-//@ func (*Proxy).fixRequestScheme, upgradeType, shouldTerminateTLS, isClosedConnError, proxyutil.Warning
+//@ func (*Proxy).fixRequestScheme, upgradeType, shouldTerminateTLS, proxyutil.Warning
 //@ trusted
 //@ modifies *
 //@ preserves proxyConn.* Proxy.* bufio.ReadWriter.* http.Response.StatusCode http.Response.Request http.Request.Method http.Response.Header http.Request.Header http.Request.URL http.Request.Body http.Response.Body
+
+// (reads the error only)
+//@ func isClosedConnError
+//@ trusted
+//@ modifies *
+//@ preserves proxyConn.* Proxy.* bufio.ReadWriter.* http.Response.StatusCode http.Response.Request http.Request.Method http.Response.Header http.Request.Header http.Request.URL http.Request.Body http.Response.Body http.Response.Close http.Request.Close maps(http.Header)
 
 //@ func newConnectResponse
 //@ trusted
@@ -162,7 +168,7 @@ package martian
 //@ func (net.Conn).SetWriteDeadline, (net.Conn).SetReadDeadline, (*bufio.ReadWriter).Flush, (*bufio.Writer).Flush, (*http.Response).Write, writeConnectOKResponse, writeHeaderOnlyResponse, isTextEventStream, newPatternFlushWriter, (*proxyConn).writeResponse$1, drainBuffer, bicopy, ContextDuration, (*http.Request).Context, (io.Closer).Close, (io.ReadCloser).Close, (io.ReadWriteCloser).Close
 //@ trusted
 //@ modifies *
-//@ preserves http.Response.StatusCode http.Response.Close http.Response.Request http.Request.Method http.Request.Close http.Response.Header http.Request.Header http.Request.URL http.Request.Body http.Response.Body proxyConn.* Proxy.* bufio.ReadWriter.*
+//@ preserves http.Response.StatusCode http.Response.Close http.Response.Request http.Request.Method http.Request.Close http.Response.Header http.Request.Header http.Request.URL http.Request.Body http.Response.Body proxyConn.* Proxy.* bufio.ReadWriter.* maps(http.Header)
 
 //@ pred deferredReport(method string, status int) = (method == "CONNECT" && status / 100 == 2) || (method != "CONNECT" && status == 101)
 
@@ -183,6 +189,12 @@ package martian
 //@ ensures sawClosing() ==> result != nil
 //@ ensures deferredReport(old(res.Request.Method), old(res.StatusCode)) && !sawClosing() && nWrote() == old(nWrote()) ==> result == nil
 //@ ensures old(res.Request.Close) && !deferredReport(old(res.Request.Method), old(res.StatusCode)) ==> result != nil
+// C02 (connection reuse decision): a response the upstream marked
+// close (its body may be delimited by the end of the connection) is never
+// followed by another response on the same client connection, and says so.
+//@ ensures old(res.Close) && !deferredReport(old(res.Request.Method), old(res.StatusCode)) ==> result != nil && res.Close
+//@ ensures result == nil ==> !res.Close || deferredReport(old(res.Request.Method), old(res.StatusCode))
+//@ ensures res.Close ==> ("Connection" in res.Header)
 
 // writeErrorResponse: a locally generated (or relayed upstream-proxy) error is
 // reported exactly once.
